@@ -467,6 +467,7 @@ Proof.
 Qed.
 
 Section Wire.
+  Local Opaque N.add N.sub.
   Variable marshal : jv -> bytes.
   Variable unmarshal : bytes -> option jv.
   Hypothesis H1 : forall j, unmarshal (marshal j) = Some j.
@@ -503,7 +504,7 @@ Section Wire.
       destruct (dv marshal false x 0) as [[[m bufs] n]| |] eqn:D; try discriminate.
       destruct ((0 <? max_att)%Z && (max_att <? Z.of_N n)%Z); [discriminate|].
       destruct (dv_spec false x 0 m bufs n C S W D) as (j & J1 & J2 & J3 & J4).
-      unfold encode_string in E. rewrite J1 in E. simpl in E. inversion E; subst e; clear E. cbn [e_frames].
+      unfold encode_string in E. rewrite J1 in E. cbn [rbind] in E. inversion E; subst e; clear E. cbn [e_frames].
       unfold spec_frames. rewrite J2.
       assert (NE : bufs <> []) by (rewrite J3; eapply hb_leaves; eauto).
       destruct bufs as [|b0 bufs']; [contradiction|]. f_equal.
@@ -511,15 +512,16 @@ Section Wire.
       set (t' := if h_type h =? 2 then 5 else if h_type h =? 3 then 6 else h_type h).
       assert (T : is_binary t' = true /\ t' = base_type (h_type h) + 3).
       { unfold t', base_type, carries_binary, is_binary in *.
-        destruct (h_type h =? 2) eqn:A2; [apply N.eqb_eq in A2; rewrite A2; split; reflexivity|].
-        destruct (h_type h =? 3) eqn:A3; [apply N.eqb_eq in A3; rewrite A3; split; reflexivity|].
+        destruct (h_type h =? 2) eqn:A2; [apply N.eqb_eq in A2; rewrite A2; split; [reflexivity|cbn; lia]|].
+        destruct (h_type h =? 3) eqn:A3; [apply N.eqb_eq in A3; rewrite A3; split; [reflexivity|cbn; lia]|].
         simpl in B1. rewrite B1. split; [reflexivity|].
-        apply orb_true_iff in B1 as [B1|B1]; apply N.eqb_eq in B1; rewrite B1; reflexivity. }
+        apply orb_true_iff in B1 as [B1|B1]; apply N.eqb_eq in B1; rewrite B1; lia. }
       destruct T as [T1 T2]. rewrite T1, <- T2.
-      rewrite nsp_part by exact Hn.
       assert (F : fmt_int (Z.of_N n) = fmt_uint (N.of_nat (length (b0 :: bufs')))).
       { unfold fmt_int. assert ((Z.of_N n <? 0)%Z = false) by lia. rewrite H. rewrite N2Z.id. f_equal. lia. }
-      rewrite F. rewrite <- !app_assoc. reflexivity.
+      rewrite F.
+      destruct (h_nsp h) as [|c [|d r]]; [contradiction| |]; unfold bytes_eqb; cbn [list_eqb];
+        destruct (c =? 47); cbn [andb app]; repeat (rewrite <- ?app_assoc; cbn [app]); reflexivity.
     - assert (NB : nobin x = true).
       { apply andb_false_iff in B as [B|B].
         - rewrite B in P1. exact P1.
@@ -529,9 +531,10 @@ Section Wire.
         simpl in P2. unfold carries_binary in B. rewrite IB, P2 in B.
         rewrite !orb_true_r in B. discriminate. }
       destruct (nobin_rel unmarshal x C NB S 0) as (j & J1 & J2).
-      unfold encode_string in E. rewrite J1 in E. simpl in E. inversion E; subst e; clear E. cbn [e_frames].
+      unfold encode_string in E. rewrite J1 in E. cbn [rbind] in E. inversion E; subst e; clear E. cbn [e_frames].
       unfold spec_frames. rewrite J2. f_equal.
-      unfold encode_header, base_type. rewrite NBin. rewrite nsp_part by exact Hn.
-      rewrite <- !app_assoc. reflexivity.
+      unfold encode_header, base_type. rewrite NBin.
+      destruct (h_nsp h) as [|c [|d r]]; [contradiction| |]; unfold bytes_eqb; cbn [list_eqb];
+        destruct (c =? 47); cbn [andb app]; repeat (rewrite <- ?app_assoc; cbn [app]); reflexivity.
   Qed.
 End Wire.
